@@ -265,9 +265,16 @@ func (f *DefaultFanController) UpdateFanSpeed() error {
 }
 
 func (f *DefaultFanController) RunInitializationSequence() (err error) {
+	if !configuration.CurrentConfig.RunFanInitializationInParallel {
+		// hold the lock for the whole sequence (PWM map computation and RPM curve measurement),
+		// so that only one fan at a time is analyzed
+		InitializationSequenceMutex.Lock()
+		defer InitializationSequenceMutex.Unlock()
+	}
+
 	fan := f.fan
 
-	err1 := f.computePwmMap()
+	err1 := f.computePwmMapUnlocked()
 	if err1 != nil {
 		ui.Warning("Error computing PWM map: %v", err1)
 	}
@@ -585,6 +592,11 @@ func (f *DefaultFanController) computePwmMap() (err error) {
 		defer InitializationSequenceMutex.Unlock()
 	}
 
+	return f.computePwmMapUnlocked()
+}
+
+// computePwmMapUnlocked does the work of computePwmMap, the caller holds the InitializationSequenceMutex (if required)
+func (f *DefaultFanController) computePwmMapUnlocked() (err error) {
 	var configOverride *map[int]int
 
 	switch f := f.fan.(type) {
